@@ -523,11 +523,15 @@ def _split(lst, n):
 DOCUMENTED = [
     ("numeric", ("uint32", 0, U32, 1), [("documented", "int", 1234567), ("documented", "int", 123456)]),
     ("numeric", ("int", -I31, I31 - 1, 1), [("documented", "int", 0), ("documented", "int", 27)]),
-    ("numeric", ("float", 4.5, 37, 0.5), [("documented", "float", v) for v in ("27.23", "27.6", "27.26", "27.9")]),
-    ("numeric", ("float", 7.2, 33.4, 0.1), [("documented", "float", v) for v in ("27.23", "27.6", "27.26", "27.9", "27.95")]),
-    ("numeric", ("float", 24.5, 29.5, 1), [("documented", "float", v) for v in ("27.2", "27.6", "27.9", "25.0", "28.3")]),
-    ("numeric", ("float", 24.5, 29.5, 5), [("documented", "float", v) for v in ("27.2", "25.0", "28.3")]),
-    ("numeric", ("uint8", 0, 100, 1), [("documented", "float", v) for v in ("27.0", "27.5", "28.0", "28.5", "29.5", "27.2", "27.6")]),
+    ("numeric", ("float", 4.5, 32, 0.5), [("documented", "float", v) for v in ("27.23", "27.6", "27.26", "27.9")]),
+    ("numeric", ("float", 7.2, 33.3, 0.1), [("documented", "float", v) for v in ("27.23", "27.6", "27.26", "27.9", "27.95")]),
+    ("numeric", ("float", 4.5, 32, 1), [("documented", "float", v) for v in ("27.2", "27.6", "27.9")]),
+    ("numeric", ("float", 4.5, 32, 2), [("documented", "float", v) for v in ("27.2", "28.2", "27.7")]),
+    ("numeric", ("float", 4.5, 32, 5), [("documented", "float", v) for v in ("27.2", "25.0", "28.3")]),
+    ("numeric", ("float", 10, 32, 1), [("documented", "float", v) for v in ("27.2", "27.6", "27.9")]),
+    ("numeric", ("float", 10, 32, 2), [("documented", "float", v) for v in ("27.2", "28.2", "27.7")]),
+    ("numeric", ("float", 10, 32, 5), [("documented", "float", v) for v in ("27.2", "25.0", "28.3")]),
+    ("numeric", ("int", 4, 32, 1), [("documented", "float", v) for v in ("27.0", "27.5", "28.0", "28.5", "29.0", "29.5", "27.2", "27.6", "27.9")]),
     ("numeric", ("uint16", None, None, 1), [("documented", "int", 1234567)]),
     ("numeric", ("uint8", None, None, 1), [("documented", "int", 1234567)]),
     ("garbage", ("uint8", None, None, None), [("str", "abc"), ("py", "None"), ("str", "inf"), ("str", "nan")]),
